@@ -133,4 +133,24 @@ theorem UQ_mul_vec_M (q p : Vec 4 R) (v : Vec 3 R) : ∀ M, Gen.UQ_mul_vec_M P q
 theorem Q_inner_MM (q p r s : Vec 4 R) : ∀ M, Gen.Q_inner_MM P q p r s = .ok M → Gen.Q_inner P q r = .ok M.1 ∧ Gen.Q_inner P p s = .ok M.2 := by
   per_value Gen.Q_inner_MM Gen.Q_inner
 
+/-! ### planar rigid motions: inverse and quotient of a sequence, value by value (the 2-D inverse no longer validates its own result) -/
+theorem SE2_inv_M (A B : Mat 3 3 R) : ∀ M, Gen.SE2_inv_M P A B = .ok M → Gen.SE2_inv P A = .ok M.1 ∧ Gen.SE2_inv P B = .ok M.2 := by
+  per_value Gen.SE2_inv_M Gen.SE2_inv
+theorem SE2_div_1M (A B C : Mat 3 3 R) : ∀ M, Gen.SE2_div_1M P A B C = .ok M → Gen.SE2_div P A B = .ok M.1 ∧ Gen.SE2_div P A C = .ok M.2 := by
+  per_value Gen.SE2_div_1M Gen.SE2_div
+
+/-! ### twists: matrix forms, negation and scalar multiples of a sequence, value by value (order kept) -/
+theorem Twist3_se3_M (S T : Vec 6 R) : ∀ M, Gen.Twist3_se3_M P S T = .ok M → Gen.Twist3_se3 P S = .ok M.1 ∧ Gen.Twist3_se3 P T = .ok M.2 := by
+  per_value Gen.Twist3_se3_M Gen.Twist3_se3
+theorem Twist3_rmul_scalar_M (S T : Vec 6 R) (k : R) : ∀ M, Gen.Twist3_rmul_scalar_M P S T k = .ok M →
+    Gen.Twist3_rmul_scalar P S k = .ok M.1 ∧ Gen.Twist3_rmul_scalar P T k = .ok M.2 := by
+  per_value Gen.Twist3_rmul_scalar_M Gen.Twist3_rmul_scalar
+theorem Twist2_inv_M (S T : Vec 3 R) : ∀ M, Gen.Twist2_inv_M P S T = .ok M → Gen.Twist2_inv P S = .ok M.1 ∧ Gen.Twist2_inv P T = .ok M.2 := by
+  per_value Gen.Twist2_inv_M Gen.Twist2_inv
+theorem Twist2_mul_scalar_M (S T : Vec 3 R) (k : R) : ∀ M, Gen.Twist2_mul_scalar_M P S T k = .ok M →
+    Gen.Twist2_mul_scalar P S k = .ok M.1 ∧ Gen.Twist2_mul_scalar P T k = .ok M.2 := by
+  per_value Gen.Twist2_mul_scalar_M Gen.Twist2_mul_scalar
+theorem Twist2_se2_M (S T : Vec 3 R) : ∀ M, Gen.Twist2_se2_M P S T = .ok M → Gen.Twist2_se2 P S = .ok M.1 ∧ Gen.Twist2_se2 P T = .ok M.2 := by
+  per_value Gen.Twist2_se2_M Gen.Twist2_se2
+
 end SmVerif.Props.Multi
